@@ -301,6 +301,18 @@ fn specs(cookie_len: usize, thorough: bool) -> Vec<Spec> {
         v.push(sp(3, Some(k), "issued", stall, expiry, ""));
     }
     if thorough {
+        // one tag bit and one body bit flipped together (every tag bit x every fourth body bit)
+        for a in 0..256i64 {
+            for b in (256..(cookie_len * 8) as i64).step_by(4) {
+                v.push(sp(3, Some(k), "bitflip2", a * 4096 + b, 21_600, ""));
+            }
+        }
+        // every age around a small expiry
+        for expiry in [0u64, 1, 2, 3, 5, 8] {
+            for age in -2..=(expiry as i64 + 3) {
+                v.push(sp(3, Some(k), "age", age, expiry, ""));
+            }
+        }
         // every pair of tag bits
         for a in 0..256i64 {
             for b in (a + 1)..256 {
@@ -389,7 +401,7 @@ pub fn run(cli: Cli) -> ! {
     rep.set("clock_retries", json!(retries.load(Ordering::Relaxed)));
     rep.set("cookie_length_bytes", json!(sample_cookie.len()));
     rep.set("exhaustive", json!(true));
-    rep.set("rule", json!("one connection per cookie variant: every truncation length, every single-bit flip of tag and body (thorough: also every pair of tag bits), other secret, 6 addresses, ages {0, e-2, e-1, e, e+1, e+2, e+10^6, -1} x expiry {0,1,60,21600}, 10 signed bodies that are not a cookie, 5 secret length classes, 10 structured secrets (lines, separators, padding) x cookies signed with each piece, prefix, suffix, trimmed form and the empty key, intent x secret combinations without a cookie branch; 12 cookie situations x authentication latency {4 s, 8 s, 40 s} x service verdict {vouches, refuses}; 3 cookies that are valid when the connection starts and expired (2.1 s of real time later) when presented; 4 histories in which the cookie is the one the router itself issued on a first connection, presented at once and after its expiry has passed in real time. Every spec is distinct."));
+    rep.set("rule", json!("one connection per cookie variant: every truncation length, every single-bit flip of tag and body (thorough: also every pair of tag bits and every tag bit together with every fourth body bit), other secret, 6 addresses, ages {0, e-2, e-1, e, e+1, e+2, e+10^6, -1} x expiry {0,1,60,21600}, 10 signed bodies that are not a cookie, 5 secret length classes, 10 structured secrets (lines, separators, padding) x cookies signed with each piece, prefix, suffix, trimmed form and the empty key, intent x secret combinations without a cookie branch; 12 cookie situations x authentication latency {4 s, 8 s, 40 s} x service verdict {vouches, refuses}; 3 cookies that are valid when the connection starts and expired (2.1 s of real time later) when presented; 4 histories in which the cookie is the one the router itself issued on a first connection, presented at once and after its expiry has passed in real time. Every spec is distinct."));
     rep.sample(json!({"spec": all[0]}));
     rep.sample(json!({"spec": sp(3, Some("6b"), "age", 60, 60, ""), "expect": "accepted (age == expiry) if the wall-clock second does not tick during the run, else repeated"}));
     rep.sample(json!({"spec": sp(3, Some("6b"), "bitflip", 255, 21600, ""), "expect": "must authenticate"}));
